@@ -66,11 +66,14 @@ class Session(EventRule):
                                F.norm_path(base.ret_ty(f)['path']) == OPTION and f.body['arg_count'] == 1 and
                                'token::Tokens' in f.body['locals'][1]['ty'].get('s', ''), 'RawCommand::from_tokens')
         self.local_events[self.from_tokens.npath] = 'from_tokens'
-        self.help_on = 'help::HelpRequest' in {F.norm_path(p) for p in lib.adts} and any(
-            f.name == 'process_help' or 'HelpRequest' in base.ret_ty(f).get('s', '') for f in lib.lib_fns())
+        # the facility is on iff the crate was compiled with the feature (the help module itself is always compiled)
+        self.features = {str(c).split('=', 1)[1] for c in lib.cfgs if str(c).startswith('feature=')}
+        self.help_on = 'help' in self.features
         hr = [f for f in methods_of(lib, 'help::HelpRequest') if 'HelpRequest' in base.ret_ty(f).get('s', '')
               and F.norm_path(base.ret_ty(f).get('path')) == OPTION]
-        self.from_command = hr[0] if len(hr) == 1 else None
+        self.from_command = hr[0] if (len(hr) == 1 and self.help_on) else None
+        if self.help_on and self.from_command is None:
+            raise KeyError("HelpRequest::from_command not found although the help feature is on")
         if self.from_command is not None:
             self.local_events[self.from_command.npath] = 'from_command'
         for kind, f in base.public_api(lib):
